@@ -478,6 +478,8 @@ func (l *lexer) scan() {
 					l.ctx = fileContext
 					p += 7
 					l.column += 7
+					// The character after the name of the tag can be a newline.
+					c = l.src[p]
 				} else if c == '"' || c == '\'' {
 					l.ctx = ast.ContextCSSString
 					quote = c
@@ -499,6 +501,7 @@ func (l *lexer) scan() {
 						quote = 0
 						p += 7
 						l.column += 7
+						c = l.src[p]
 					}
 				}
 
@@ -509,6 +512,7 @@ func (l *lexer) scan() {
 					jsComment = jsCommentNone
 					p += 8
 					l.column += 8
+					c = l.src[p]
 				} else if jsComment == jsCommentLine {
 					if c == '\n' || c == '\r' {
 						jsComment = jsCommentNone
@@ -551,6 +555,7 @@ func (l *lexer) scan() {
 						quote = 0
 						p += 8
 						l.column += 8
+						c = l.src[p]
 					}
 				}
 
@@ -560,6 +565,7 @@ func (l *lexer) scan() {
 					l.ctx = fileContext
 					p += 8
 					l.column += 8
+					c = l.src[p]
 				} else if c == '"' {
 					l.ctx = ast.ContextJSONString
 					quote = '"'
@@ -581,6 +587,7 @@ func (l *lexer) scan() {
 						quote = 0
 						p += 8
 						l.column += 8
+						c = l.src[p]
 					}
 				}
 
